@@ -120,8 +120,9 @@ Inductive meth :=
 | M_uniqueString | M_uniqueInt | M_compact | M_cross | M_merge | M_order | M_orderRev | M_orderLess
 | M_reverse | M_append | M_iir | M_iirCombine | M_visit | M_fsm | M_top | M_skip | M_number | M_present
 | M_set | M_size | M_first | M_single | M_last | M_eval | M_movingWindow | M_movingWindowRemove | M_multiUse
+| M_replaceList | M_replaceMap
 | M_len | M_string | M_trim | M_toLower | M_toUpper | M_contains | M_indexOf | M_split | M_cut
-| M_replace | M_toInt
+| M_replace | M_toInt | M_toFloat
 | M_get | M_put | M_isAvail | M_list
 | M_fork            (* pseudo: let w = <steps before>; [w.<branch 1>, w.<branch 2>, ..., w, source] *)
 | M_plus            (* pseudo: receiver + argument *)
@@ -140,10 +141,10 @@ Definition meth_name (m : meth) : name :=
   | M_iir => nm_iir | M_iirCombine => nm_iirCombine | M_visit => nm_visit | M_fsm => nm_fsm | M_top => nm_top
   | M_skip => nm_skip | M_number => nm_number | M_present => nm_present | M_set => nm_set | M_size => nm_size
   | M_first => nm_first | M_single => nm_single | M_last => nm_last | M_eval => nm_eval
-  | M_movingWindow => nm_movingWindow | M_movingWindowRemove => nm_movingWindowRemove | M_multiUse => nm_multiUse
+  | M_movingWindow => nm_movingWindow | M_movingWindowRemove => nm_movingWindowRemove | M_multiUse => nm_multiUse | M_replaceList => nm_replaceList | M_replaceMap => nm_replaceMap
   | M_len => nm_len | M_string => nm_string | M_trim => nm_trim | M_toLower => nm_toLower
   | M_toUpper => nm_toUpper | M_contains => nm_contains | M_indexOf => nm_indexOf | M_split => nm_split
-  | M_cut => nm_cut | M_replace => nm_replace | M_toInt => nm_toInt
+  | M_cut => nm_cut | M_replace => nm_replace | M_toInt => nm_toInt | M_toFloat => nm_toFloat
   | M_get => nm_get | M_put => nm_put | M_isAvail => nm_isAvail | M_list => nm_list
   | M_fork => [35; 102; 111; 114; 107]%N
   | M_plus => [43]%N
@@ -159,15 +160,15 @@ Definition list_meths : list (meth * Z) :=
    (M_compact, 1); (M_cross, 2); (M_merge, 2); (M_order, 1); (M_orderRev, 1); (M_orderLess, 1);
    (M_reverse, 0); (M_append, 1); (M_iir, 2); (M_iirCombine, 2); (M_visit, 2); (M_fsm, 1); (M_top, 1);
    (M_skip, 1); (M_number, 1); (M_present, 1); (M_set, 2); (M_size, 0); (M_first, 0); (M_single, 0);
-   (M_last, 0); (M_eval, 0); (M_movingWindow, 1); (M_movingWindowRemove, 1); (M_multiUse, 1)].
+   (M_last, 0); (M_eval, 0); (M_movingWindow, 1); (M_movingWindowRemove, 1); (M_multiUse, 1); (M_replaceList, 1)].
 
 Definition string_meths : list (meth * Z) :=
   [(M_len, 0); (M_string, 0); (M_trim, 0); (M_toLower, 0); (M_toUpper, 0); (M_contains, 1);
-   (M_indexOf, 1); (M_split, 1); (M_cut, 2); (M_replace, 2); (M_toInt, 0)].
+   (M_indexOf, 1); (M_split, 1); (M_cut, 2); (M_replace, 2); (M_toInt, 0); (M_toFloat, 0)].
 
 Definition map_meths : list (meth * Z) :=
   [(M_accept, 1); (M_map, 1); (M_list, 0); (M_size, 0); (M_isAvail, -1); (M_get, 1); (M_put, 2);
-   (M_combine, 2); (M_eval, 0); (M_replace, 1)].
+   (M_combine, 2); (M_eval, 0); (M_replace, 1); (M_replaceMap, 1)].
 
 Definition scalar_meths : list (meth * Z) := [(M_string, 0)].
 
@@ -177,10 +178,10 @@ Definition model_table : list (N * list (meth * Z)) :=
 
 (* built-ins that exist but have no model (the pipeline answers Unsup: case skipped) *)
 Definition unmodelled_table : list (N * list name) :=
-  [(5%N, [nm_replaceList; nm_iirApply; nm_string; nm_createInterpolation; nm_linearReg;
+  [(5%N, [nm_iirApply; nm_string; nm_createInterpolation; nm_linearReg;
           nm_binning; nm_binning2d; nm_collectBinning]);
-   (3%N, [nm_behind; nm_behindList; nm_toFloat]);
-   (6%N, [nm_replaceMap; nm_string]);
+   (3%N, [nm_behind; nm_behindList]);
+   (6%N, [nm_string]);
    (7%N, [nm_args; nm_invoke; nm_string])].
 
 (* the table as (type id, name, arity) triples, to be compared with Generated/ValueMethods.v *)
@@ -290,6 +291,11 @@ Definition run_list (s : strm) (m : meth) (args : list arg) : res pv :=
       | _ => bind (collect s) (fun l => bind (multi_apply l fs) (fun es => Ok (PV (VMap es))))
       end
   | M_multiUse, [AV _] | M_multiUse, [AF _ _] => Err None     (* not a map of functions *)
+  (* List.ReplaceList: the function is applied to the list itself and its answer is the result; a receiver
+     that fails while it is evaluated is outside the model (whether the failure shows depends on what the
+     function demands) *)
+  | M_replaceList, [a] =>
+      bind (arg_f1 a) (fun f => match collect s with Ok l => okV (f (VList l)) | Err _ => Unsup | r => okL r end)
   | _, _ => Unsup
   end.
 
@@ -306,6 +312,7 @@ Definition run_string (s : str) (m : meth) (args : list arg) : res pv :=
   | M_cut, [p; n] => with_int p (fun p => with_int n (fun n => Ok (PV (VStr (str_cut s p n)))))
   | M_replace, [o; n] => with_str o (fun o => with_str n (fun n => Ok (PV (VStr (str_replace s o n)))))
   | M_toInt, [] => okV (str_to_int s)
+  | M_toFloat, [] => okV (str_to_float s)
   | _, _ => Unsup
   end.
 
@@ -326,6 +333,7 @@ Definition run_map (e : entries) (m : meth) (args : list arg) : res pv :=
   | M_get, [a] => with_str a (fun k => okV (mm_get e k))
   | M_put, [k; v] => with_str k (fun k => bind (arg_val v) (fun v => bind (mm_put e k v) (fun r => Ok (PV (VMap r)))))
   | M_replace, [a] => bind (arg_f1 a) (fun f => bind (mm_replace f e) (fun r => Ok (PV (VMap r))))
+  | M_replaceMap, [a] => bind (arg_f1 a) (fun f => okV (f (VMap e)))     (* Map.ReplaceMap: the function applied to the map *)
   | M_combine, [o; a] =>
       bind (arg_f2 a) (fun f =>
       bind (arg_val o) (fun ov => match ov with
@@ -400,11 +408,14 @@ Definition run_src (s : src) : res pv :=
   match s with
   | SrcV v => Ok (PV v)
   | SrcStatic f args =>
+      match run_round_static f args with
+      | Some r => match args with [_] => okV r | _ => Err None end
+      | None =>
       match static_arity f with
       | Some (Fixed n) => if Nat.eqb n (length args) then okV (run_static f args) else Err None
       | Some VarArgs => okV (run_static f args)
       | None => Unsup
-      end
+      end end
   end.
 
 (* steps = pre ++ [fork] ++ branch1 ++ [fork] ++ branch2 ...: the first component are the steps
@@ -593,6 +604,7 @@ Definition spec_list (l : list value) (m : meth) (args : list arg) : res value :
   | M_compact, [a] => bind (arg_f2 a) (fun f => lz (d_compact f l))
   | M_cross, [o; a] => bind (arg_f2 a) (fun f => sp_list o (fun l2 => lz (d_cross f l l2)))
   | M_merge, [o; a] => bind (arg_f2 a) (fun f => sp_list o (fun l2 => lz (d_merge f l l2)))
+  | M_replaceList, [a] => bind (arg_f1 a) (fun f => f (VList l))
   | M_order, [a] => bind (arg_f1 a) (fun f => sort_spec (lt_key f false) l)
   | M_orderRev, [a] => bind (arg_f1 a) (fun f => sort_spec (lt_key f true) l)
   | M_orderLess, [a] => bind (arg_f2 a) (fun f => sort_spec (fun x y => d_bool (f x y)) l)
@@ -947,6 +959,7 @@ Definition modelled_statics : list name :=
    n_min; n_max; n_numbers].
 
 Definition statics_match (gen : list (name * Z)) : bool :=
+  forallb (fun n => match assoc n gen with Some a => a =? 1 | None => false end) [n_round; n_floor; n_ceil; n_trunc] &&
   forallb (fun n =>
     match assoc n gen, static_arity n with
     | Some a, Some (Fixed k) => a =? Z.of_nat k
